@@ -1063,7 +1063,17 @@ def ewise(fn, out_dtype, *xs):
     flats = [np.ascontiguousarray(a).reshape(-1) if a.size else a.reshape(-1) for a in b]
     for i in range(of.size):
         of[i] = e_cast(fn(*[f[i] for f in flats]), out_dtype)
+    rng = _NARROW_INT.get(out_dtype)
+    if rng is not None and CUR is not None:
+        # arithmetic carried out in a narrow integer dtype wraps around in torch; here integers are mathematical: every symbolic result gets an
+        # overflow guard (checked by the properties that talk about integer arithmetic, like the division guards)
+        for v in of:
+            if is_sym(v):
+                CUR.guards.append(z3.Or(lift(v, 'i') > rng[1], lift(v, 'i') < rng[0]))
     return SymTensor.from_array(out, out_dtype)
+
+
+_NARROW_INT = {torch.int32: (-2 ** 31, 2 ** 31 - 1), torch.int16: (-2 ** 15, 2 ** 15 - 1), torch.int8: (-2 ** 7, 2 ** 7 - 1), torch.uint8: (0, 255)}
 
 
 def meta_of(x):
